@@ -52,6 +52,15 @@ where
     })
 }
 
+impl Features {
+    /// Features enabled in `self` or in `other`: `-f` may be given before and after a subcommand
+    pub fn union(self, other: Self) -> Self {
+        Self {
+            stack: self.stack || other.stack,
+        }
+    }
+}
+
 impl FromStr for Features {
     type Err = String;
     fn from_str(string: &str) -> Result<Self, Self::Err> {
